@@ -78,10 +78,12 @@ Proof. exact @sorted_multiset. Qed.
 Print Assumptions C07_sorted_multiset.
 
 (* [Sorted] above is sortedness of adjacent elements. Under a strict weak
-   order it is the same as "no element is less than ANY earlier one". *)
+   order it is equivalent to "no element is less than ANY earlier one"
+   (adjacent => all pairs needs the order; the converse is the standard
+   library's StronglySorted_Sorted). *)
 Theorem C07_sorted_is_strongly_sorted : forall (T : Type) (less : T -> T -> bool), StrictWeakOrder less ->
-  forall l, Sorted (le_of less) l -> StronglySorted (le_of less) l.
-Proof. exact @sorted_strongly. Qed.
+  forall l, Sorted (le_of less) l <-> StronglySorted (le_of less) l.
+Proof. exact @sorted_iff_strongly. Qed.
 Print Assumptions C07_sorted_is_strongly_sorted.
 
 (* A strict total order consistent with == is in particular a strict weak order. *)
@@ -198,7 +200,7 @@ Print Assumptions C07_hypotheses_satisfiable.
 
 Example C07_strongly_sorted_example :
   StronglySorted (le_of (fun a b => Z.ltb (a / 4) (b / 4))) [2;1;5;6].
-Proof. apply (sorted_strongly _ Z_key_swo). repeat constructor. Qed.
+Proof. apply (sorted_iff_strongly _ Z_key_swo). repeat constructor. Qed.
 
 Example C07_example :
   (do s <- NewSorted 0 insertion_sort [5;3;9;3;1] Z.ltb;
